@@ -10,6 +10,11 @@ Offs == {MinW, -2048, -8, -1, 0, 1, 8, 2047, MaxW}
 RegsB == {0, 1, 2, 10, 31}
 Csrs == {0, 5, 64, 3072, 4095}
 Labs == {"L", "msg", "a_long_label_1"}
+\* every singleton, the neighbouring pairs at the ends, the classes, everything, nothing (as sorted sequences)
+RECURSIVE Up(_, _)
+Up(a, b) == IF a > b THEN <<>> ELSE <<a>> \o Up(a + 1, b)
+RegSets == { <<r>> : r \in 0..31 } \cup { <<r, r + 1>> : r \in {0, 1, 15, 29, 30} }
+           \cup { <<>>, Up(0, 31), Up(1, 31), Up(5, 7) \o Up(28, 31), <<8, 9>> \o Up(18, 27), Up(10, 17) }
 V(t, r, n, s) == [t |-> t, r |-> r, n |-> n, s |-> s]
 Values(k) ==
   CASE k = "c"   -> { V("c", -1, n, "") : n \in Offs }
@@ -21,13 +26,14 @@ Values(k) ==
     [] k = "so"  -> { [t |-> "so", c |-> -1, o |-> n] : n \in Offs }
     [] k = "lcsr" -> { [t |-> "csr", c |-> c, o |-> 0] : c \in Csrs }
     [] k = "csro" -> { [t |-> "csro", c |-> c, o |-> n] : c \in Csrs, n \in Offs }
-Kinds == {"c", "a", "m", "rs", "ors", "mr", "omr", "csr", "mc", "so", "lcsr", "csro"}
+    [] k = "regset" -> { [t |-> "regset", regs |-> rs] : rs \in RegSets }
+Kinds == {"c", "a", "m", "rs", "ors", "mr", "omr", "csr", "mc", "so", "lcsr", "csro", "regset"}
 Init == phase = "start" /\ kind = "" /\ item = <<>>
 PickKind == phase = "start" /\ \E k \in Kinds : kind' = k /\ phase' = "kind" /\ item' = item
 Emit == /\ phase = "kind"
         /\ \E v \in Values(kind) :
              /\ item' = v
-             /\ PrintT("CASE " \o ToJson([loc |-> kind \in {"so", "lcsr", "csro"}, v |-> v]))
+             /\ PrintT("CASE " \o ToJson([loc |-> kind \in {"so", "lcsr", "csro"}, set |-> kind = "regset", v |-> v]))
         /\ phase' = "done" /\ kind' = kind
 Next == PickKind \/ Emit
 Spec == Init /\ [][Next]_vars
